@@ -707,15 +707,19 @@ inductive Due where
 def Due.time : Due → Nat
   | .tx _ t | .ping _ t | .pingCancel _ t => t
 
+/-- what a sleep pinger has pending at or before `t`: its cancellation (the end of the announced
+    sleep), and a tick — only while it has not been cancelled -/
+def pingerDue (p : Pinger) (i t : Nat) : List Due :=
+  (if p.cancelAt ≤ t then [Due.pingCancel i p.cancelAt] else []) ++
+  (if p.next ≤ t ∧ p.next < p.cancelAt then [Due.ping i p.next] else [])
+
 /-- the earliest pending timer, if any is due at or before `t` (ties: transactions in creation
     order first, then pingers) -/
 def nextDue (g : Gw) (t : Nat) : Option Due :=
   let txDue := g.txs.filterMap fun x => match x.timer with
     | some d => if d ≤ t then some (Due.tx x.id d) else none
     | none => none
-  let pingDue := (g.pingers.zipIdx).flatMap fun (p, i) =>
-    (if p.cancelAt ≤ t then [Due.pingCancel i p.cancelAt] else []) ++
-    (if p.next ≤ t ∧ p.next < p.cancelAt then [Due.ping i p.next] else [])
+  let pingDue := (g.pingers.zipIdx).flatMap fun (p, i) => pingerDue p i t
   (txDue ++ pingDue).foldl (fun best d => match best with
     | none => some d
     | some b => if d.time < b.time then some d else some b) none
